@@ -35,7 +35,7 @@ ANCHORS = ["decaylanguage.modeling.decay:ModelDecay.list_structure", "decaylangu
 WORKERS = {"quick": 8, "thorough": 16}
 WATCHDOG = {"quick": 900, "thorough": 3300}
 WTESTS = {"groups": ['list_structure'], "tests": ['tests/test_goofit.py', 'tests/test_convert.py']}
-REQUIRED = {"direct-call:as-read": 10, "direct-call:reversed-in-place": 5, "direct-call:two-swapped-in-place": 5, "C18.direct_call_permutations_match_event_type_at_the_call": 30, "enum:all-shapes-and-patterns": 1, "enum:permutations>=4": 100, "enum:leaf-not-in-event-raises": 10,
+REQUIRED = {"two-resonances-of-the-same-name-in-one-amplitude": 2, "direct-call:as-read": 10, "direct-call:reversed-in-place": 5, "direct-call:two-swapped-in-place": 5, "C18.direct_call_permutations_match_event_type_at_the_call": 30, "enum:all-shapes-and-patterns": 1, "enum:permutations>=4": 100, "enum:leaf-not-in-event-raises": 10,
             **{f"structure:{f}{w}": 2 for f, w in A.STRUCTURES}, **{f"lineshape:{k}": 4 for k in A.LS_KINDS}, "topology:two-resonances": 4, "topology:cascade": 4,
             "language:cpp": 10, "language:python": 10, "event:4-permutations": 2, "event:0": 2, "event:1": 2, "event:2": 2, "event:4": 2, "event:rearranged": 2, "event:particle-three-times(6-permutations)": 2, "event:identical-particles-not-adjacent": 2, "same-amplitudes-other-event-order-same-process": 2, "expanded-by-name": 2, "partial-line-referred-to-from>=2-places": 1, "two-body-vertex-written-in-reverse-order": 2,
             "C18.list_structure.equals_bruteforce": 1000}
@@ -161,6 +161,8 @@ def check_file(ctx, model, style_seed, workload="gen"):
             for k in n.kids:
                 bare_uses(k, acc)
 
+    if any(len(t.kids) == 2 and t.kids[0].kids is not None and t.kids[1].kids is not None and t.kids[0].name == t.kids[1].name for _, ts in groups for t in ts):
+        ctx.hit("two-resonances-of-the-same-name-in-one-amplitude")
     if any(getattr(ln["node"], "reversed_vertex", False) for ln in model["lines"]):
         ctx.hit("two-body-vertex-written-in-reverse-order")
     uses = []
@@ -315,6 +317,14 @@ def compare(ctx, model, m, oracles, wit, lang):
                 elif gl == el:
                     mech += ":arguments"
                 ctx.violate(f"{mech}:{lang}", f"{a['name']}: lineshapes {a['ls'][:4]} expected {exp_ls[:4]}", w)
+            elif o["n"] and len(exp_ls) % o["n"] == 0:
+                # ... and permutation by permutation: GooFit pairs the lineshapes with the permutations by position, so the consecutive
+                # block of each permutation must be the lineshapes of ONE assignment (the multiset over all blocks can agree when they are mixed up)
+                v = len(exp_ls) // o["n"]
+                blocks = lambda seq: Counter(tuple(sorted(map(key, seq[i:i + v]))) for i in range(0, len(seq), v))  # noqa: E731
+                ctx.mon("C18.lineshapes_permutation_by_permutation")
+                if blocks(a["ls"]) != blocks(exp_ls):
+                    ctx.violate(f"amplitude:lineshapes:mass-indices:mixed-between-permutations:{lang}", f"{a['name']}: per permutation {[tuple(d['mass'] for d in a['ls'][i:i + v]) for i in range(0, len(a['ls']), v)]} expected {[tuple(d['mass'] for d in exp_ls[i:i + v]) for i in range(0, len(exp_ls), v)]}", w)
             if a.get("comment") is not None and a["comment"] != a["name"]:
                 ctx.violate(f"amplitude:comment-name:{lang}", f"{a['comment']!r} vs {a['name']!r}", w)
 
@@ -351,6 +361,18 @@ def run(ctx):
             check_file(ctx, model, rng.randrange(10**9))
             if len(ctx.violations) >= ctx.max_violations:
                 return
+    # every written template of every family once per run (the covering design above draws among a family's templates at random)
+    k = 0
+    for ev, fams in A.TEMPLATES.items() if isinstance(A.TEMPLATES, dict) else enumerate(A.TEMPLATES):
+        for fam, ts in fams.items():
+            for j in range(len(ts)):
+                k += 1
+                if len(ts) < 2 or not ctx.mine(k):
+                    continue
+                wave = rng.choice([w for f, w in A.STRUCTURES if f == fam] or [""])
+                model = A.gen_fourbody(rng, ev, [(fam, wave, rng.choice(A.LS_KINDS))], template=j)
+                ctx.hit("template-by-template")
+                check_file(ctx, model, rng.randrange(10**9))
     for _ in range(ctx.pick(1, 12)):
         model = A.gen_fourbody(rng)
         seed = rng.randrange(10**9)
